@@ -59,6 +59,19 @@ def one_case(rng, res):
         if vcommon.accepted(i) and not desc["expected_accept"]:
             vcommon.oracle_fail(res, scn, desc, "accepted although the only evidence presented for step %s is a link "
                                 "recorded for step %s" % (desc["to"], desc["from"]), i)
+        if desc["expected_accept"] and not vcommon.accepted(i):
+            vcommon.oracle_fail(res, scn, desc, "every step has genuine evidence (step %s from a second functionary) and the "
+                                "replayed link of step %s must simply not count, yet verification failed" % (
+                                    desc["to"], desc["from"]), i)
+        if vcommon.accepted(i):
+            # the summary is built from the evidence accepted for the first and the last step: it must not show
+            # anything of a link recorded for another step
+            summ = json.loads(i["result"]["ok"], strict=False)
+            last = ch.steps[-1]
+            used_foreign = summ.get("command") != ["do", last["name"]]
+            if used_foreign:
+                vcommon.oracle_fail(res, scn, desc, "the summary link carries the command %r: the evidence used for step %s "
+                                    "is not a link recorded for that step" % (summ.get("command"), last["name"]), i)
     finally:
         scen.drop_root(root)
 
